@@ -128,7 +128,7 @@ def gen(rng, tier, quarantine=()):
     if any(o.get("id") == "w0" for o in ops):
         ops.append({"op": "exit", "id": "w0"})
     ops.append({"op": "exit", "id": "p0"})
-    sc = {"prog": "forms", "ops": ops}
+    sc = {"prog": "forms", "ops": ops, "exact_failures": True}
     if generated:
         sc.update({"prog": "generated", "program": generated, "prog_name": f"gen{rng.randrange(1 << 40):x}"})
     return sc
